@@ -92,6 +92,13 @@ def replay(args):
     import importlib
     rb = importlib.import_module("operon_ai.organelles.ribosome")
     recs, feats, cases = [], [], []
+    # one long-lived renderer per mode (as an application would hold it): state left behind by one render must not leak into the next
+    shared = {}
+    for strict in (False, True):
+        r0 = rb.Ribosome(strict=strict, silent=True)
+        r0.create_template("".join(token(t) for t in SUB1), "t1")
+        r0.create_template("".join(token(t) for t in SUB2), "t2")
+        shared[strict] = r0
     for line in open(path):
         c = json.loads(line)
         text = "".join(token(t) for t in c["tpl"])
@@ -107,9 +114,7 @@ def replay(args):
         expected = "".join(piece(p) for p in c["out"])
         rec = {"nwarn": len(c["warn"]), "all_plain_bound": all(v in ctx for v in c["plain"]), "raised": False, "strict_error": False}
         for strict in (False, True):
-            r = rb.Ribosome(strict=strict, silent=True)
-            r.create_template("".join(token(t) for t in SUB1), "t1")
-            r.create_template("".join(token(t) for t in SUB2), "t2")
+            r = shared[strict]
             try:
                 p = r.synthesize(text, **ctx)
                 if not strict:
@@ -120,6 +125,14 @@ def replay(args):
             except ValueError as ex:
                 if strict:
                     rec["strict_error"] = True
+                    # the same instance must still render correctly after an error: re-render a delimiter-carrying probe
+                    try:
+                        probe = r.synthesize("{{?a}}", a="{{b}} {{?b}}", b="X").sequence
+                    except Exception:
+                        probe = None
+                    if probe != "{{b}} {{?b}}":
+                        rec["equal"] = False
+                        rec["got"], rec["want"] = repr(probe), "{{b}} {{?b}} (probe after a strict-mode error on the same instance)"
                 else:
                     rec.update(raised=True, equal=False, warned=False, exc=str(ex)[:80])
             except Exception as ex:
